@@ -161,9 +161,21 @@ class Gen:
                 self.used_idents.add(t)
                 return t
 
-    def unit_attr(self, with_scale, allow_prefix, scale_text=None):
+    def noref_ident(self, defn):
+        """identifiers sharing a prefix, so that the NAME order (underscore shown as space, case
+        kept) and the order of the UpperCamel identifiers can differ"""
+        while True:
+            k = self.rng.below(3) + 1
+            t = f"N{defn}_" + "_".join(self.rng.choice(["apple", "Banana", "bar", "Baz", "barA", "Foo", "FooA", "foo", "x9", "Zed"])
+                                       for _ in range(k))
+            if t not in self.used_idents:
+                self.used_idents.add(t)
+                return t
+
+    def unit_attr(self, with_scale, allow_prefix, scale_text=None, noref_of=None):
         r = self.rng
-        toks = [ident(self.fresh_ident()), COMMA, string(r.choice(SYMS) + str(r.below(50)))]
+        name = self.noref_ident(noref_of) if noref_of is not None else self.fresh_ident()
+        toks = [ident(name), COMMA, string(r.choice(SYMS) + str(r.below(50)))]
         if allow_prefix and r.chance(1, 3):
             toks += [COMMA, ident(r.choice(PREFIXES))]
         if with_scale:
@@ -218,7 +230,7 @@ class Gen:
                     d.args = [ident(lhs), Tok("p", op), ident(b)]
             self.refdefs.append(d.name)
         elif kind == "noref":
-            d.attrs = [self.unit_attr(False, False) for _ in range(r.below(5) + 2)]
+            d.attrs = [self.unit_attr(False, False, noref_of=self.n) for _ in range(r.below(5) + 2)]
         else:
             d.attrs = [self.unit_attr(False, False)]
         if r.chance(1, 6):
